@@ -1,0 +1,44 @@
+//! Verification hook (compiled only with `--cfg incan_verif`): virtual delays at the language server's
+//! existing suspension points, so that a test harness can explore handler interleavings deterministically.
+//!
+//! The table maps `(point, document version)` to a delay in milliseconds of (virtual) tokio time.
+//! With the guard off this module does not exist and no call site is compiled.
+
+use std::collections::HashMap;
+use std::sync::{Mutex, OnceLock};
+use std::time::Duration;
+
+static DELAYS: OnceLock<Mutex<HashMap<(String, i32), u64>>> = OnceLock::new();
+static TRACE: OnceLock<Mutex<Vec<(String, i32)>>> = OnceLock::new();
+
+fn delays() -> &'static Mutex<HashMap<(String, i32), u64>> {
+    DELAYS.get_or_init(|| Mutex::new(HashMap::new()))
+}
+
+fn trace() -> &'static Mutex<Vec<(String, i32)>> {
+    TRACE.get_or_init(|| Mutex::new(Vec::new()))
+}
+
+/// Replace the delay table and clear the trace of reached pause points.
+pub fn set_delays(table: Vec<(String, i32, u64)>) {
+    let mut d = delays().lock().unwrap();
+    d.clear();
+    for (point, version, ms) in table {
+        d.insert((point, version), ms);
+    }
+    trace().lock().unwrap().clear();
+}
+
+/// The pause points reached since the last `set_delays`, in order.
+pub fn take_trace() -> Vec<(String, i32)> {
+    std::mem::take(&mut *trace().lock().unwrap())
+}
+
+/// Suspend the calling handler at `point` for the configured delay (version `-1` = close handler).
+pub async fn pause(point: &str, version: i32) {
+    trace().lock().unwrap().push((point.to_string(), version));
+    let ms = delays().lock().unwrap().get(&(point.to_string(), version)).copied().unwrap_or(0);
+    if ms > 0 {
+        tokio::time::sleep(Duration::from_millis(ms)).await;
+    }
+}
